@@ -12,7 +12,8 @@ RULE = ("every registry function (%d public entry points) x argument tuples draw
         "float16/complex/object/bool/uint64 arrays, by arrays whose shape disagrees with the paired argument, by non-arrays (None, "
         "list, str), by arrays holding extreme values (dtype min/max, negative labels, nan, inf); a scalar argument - including every "
         "numeric, string or None-defaulted parameter of the public signature that a normal call leaves implicit - replaced by 0, -1, 1, "
-        "2**31, -2**31, 2**62, 0.0, -1.5, 1e300, nan; mode strings by every border mode and invalid ones; sequences (shifts, zooms, "
+        "2**31, -2**31, 2**62, 0.0, -1.5, 1e300, nan and by the largest values that still fit a C int / npy_intp (2**31-1, 2**30, 46341, "
+        "2**63-1, -2**63); mode strings by every border mode and invalid ones; sequences (shifts, zooms, "
         "sigmas) by empty, wrong-length, nan, inf and 1e300 entries; slots are visited round-robin. Each call is also repeated on the "
         "AddressSanitizer build, where an out-of-bounds access that does not crash is reported. Every call runs in an "
         "isolated worker with a wall-clock limit and RLIMIT_AS; the outcome must be a result or a Python exception and the worker "
@@ -23,6 +24,9 @@ NOT_PROVED = ["crash-freedom of the compiled code is observed, not proved; the C
 BUDGET_S = {"quick": 500, "thorough": 3000}
 CALL_LIMIT_S = 20
 SCALARS = [0, -1, 1, 2 ** 31, -2 ** 31, 2 ** 62, 0.0, -1.5, 1e300, float("nan")]
+# values that still FIT the C types the wrappers parse into (int, npy_intp) -- so no OverflowError stops them -- but whose double,
+# square or sum does not: INT_MAX, 2**30 (2*S overflows), 46341 (S*S overflows), LONG_MAX, LONG_MIN
+SCALARS_FIT = [2 ** 31 - 1, 2 ** 30, 46341, 65537, 2 ** 63 - 1, -2 ** 63, 2 ** 31 - 2]
 BADT = ["float16", "complex64", "bool", "uint64", "int8", "float32"]
 
 
@@ -94,7 +98,7 @@ def mutate(rng, args, kwargs, fn=None, slot=None):
             put({"special": m})
         return args, kwargs, "%s%s:%s" % (kind, key, m)
     if isinstance(cur, (int, float)) and not isinstance(cur, bool):
-        v = rng.choice(SCALARS)
+        v = rng.choice(SCALARS_FIT) if rng.random() < 0.4 else rng.choice(SCALARS)
         if (fn, key) in WORK_PARAMS and isinstance(v, (int, float)) and abs(v) > 64:
             v = 64                  # see WORK_PARAMS
         put(v)
@@ -135,7 +139,7 @@ def defaulted_params(ctx, name, nargs, kwargs):
 
 def gen_requests(ctx):
     rng = random.Random(ctx.seed + 11)
-    per = 16 if ctx.tier == "quick" else 120
+    per = 24 if ctx.tier == "quick" else 120
     reqs = []
     for e in R.REG:
         for k in range(per):
@@ -153,6 +157,56 @@ def gen_requests(ctx):
             except Exception:
                 continue
             reqs.append({"id": "%s#%d" % (e.name, k), "fn": e.name, "args": a2, "kwargs": k2, "desc": desc})
+    reqs += out_requests(ctx, rng)
+    return reqs
+
+
+def out_requests(ctx, rng):
+    """degenerate OUTPUT buffers: every function with an out= / output= parameter gets, on an otherwise valid call, a buffer of the
+    wrong rank, a 0-d and a zero-sized one, one that is too small or too large, non-arrays, and a READ-ONLY buffer of the right
+    shape (on top of an immutable bytes object) in several dtypes: the call must raise or return, and nothing may be written
+    through the read-only buffer"""
+    import inspect
+    reqs = []
+    per = 8 if ctx.tier == "quick" else 40
+    for e in R.REG:
+        try:
+            params = inspect.signature(R.resolve(ctx.mh, e.name)).parameters
+        except (TypeError, ValueError, AttributeError, ImportError):
+            continue
+        kws = [k for k in ("out", "output") if k in params]
+        if not kws:
+            continue
+        for k in range(per):
+            try:
+                args, kwargs = e.gen(rng)
+            except Exception:
+                continue
+            first = next((a for a in args if isinstance(a, dict) and "arr" in a), None)
+            if first is None:
+                continue
+            sh, dt = list(first["shape"]), first["arr"]
+            odt = rng.choice([dt, dt, "bool", "int32", "float64", "intc"])
+            kind = ["rank-", "rank+", "0d", "empty", "small", "large", "frozen", "frozen", "list", "str"][k % 10]
+            if kind == "rank-":
+                spec = {"special": "zeros", "shape": [5] if len(sh) > 1 else [], "dtype": odt}
+            elif kind == "rank+":
+                spec = {"special": "zeros", "shape": [1] + sh, "dtype": odt}
+            elif kind == "0d":
+                spec = {"special": "scalar0d", "dtype": odt}
+            elif kind == "empty":
+                spec = {"special": "zeros", "shape": [0] * len(sh), "dtype": odt}
+            elif kind == "small":
+                spec = {"special": "zeros", "shape": [max(1, d - rng.choice([1, 2, d - 1])) for d in sh], "dtype": odt}
+            elif kind == "large":
+                spec = {"special": "zeros", "shape": [d + rng.choice([1, 3]) for d in sh], "dtype": odt}
+            elif kind == "frozen":
+                spec = {"special": "frozen", "shape": sh, "dtype": odt}
+            else:
+                spec = {"special": kind}
+            kw = dict(kwargs)
+            kw[rng.choice(kws)] = spec
+            reqs.append({"id": "%s#out%d" % (e.name, k), "fn": e.name, "args": args, "kwargs": kw, "desc": "out buffer: %s %s" % (kind, odt)})
     return reqs
 
 
@@ -244,4 +298,7 @@ def run_case(ctx, case):
                                     "returncode": o["crash"].get("returncode"), "stderr": o["crash"].get("stderr", "")[-400:]})
     if "hang" in o:
         return Result(False, True, {"why": "%s did not return within the time limit on a degenerate argument (%s)" % (r["fn"], r.get("desc"))})
+    if o.get("readonly_modified"):
+        return Result(False, True, {"why": "%s wrote through a read-only buffer (%s): the bytes object underneath is immutable"
+                                    % (r["fn"], r.get("desc")), "outcome": o.get("exc")})
     return Result(True, True, None, "%s/%s" % (r["fn"], "exception" if o.get("exc") else "result"))
